@@ -34,6 +34,25 @@ def _unit_shard(args):
     n = 0
     bad = []
     W = 6
+    # channel range of a depth slice: one-to-one for depthwise / pooling / elementwise, the whole IFM depth for dot products and sums
+    for H in Hs:
+        for bt, whole, Cin in ((NpuBlockType.ConvolutionDepthWise, False, 40), (NpuBlockType.Pooling, False, 40), (NpuBlockType.ElementWise, False, 40),
+                               (NpuBlockType.ConvolutionMxN, True, 40), (NpuBlockType.VectorProduct, True, 40), (NpuBlockType.ReduceSum, True, 40)):
+            kern = Kernel(1, 1, 1, 1, 1, 1)
+            pad, skirt = calc_padding_and_skirt(Padding.VALID, kern, Shape4D([1, H, W, Cin]), None)
+            for split in (None, [0, 0, 0, 8]):
+                for c0 in range(0, 24, 8):
+                    for c1 in range(c0 + 8, 25, 8):
+                        box = Box([0, 0, 0, c0], [1, H, W, c1])
+                        ifm_shape = Shape4D([1, H, W, Cin])
+                        ib, _, _ = box.transform_with_strides_and_skirt([1, 1, 1, 1], skirt, ifm_shape, bt, [0, 0, 0, 0], 1, Shape4D(split) if split else None,
+                                                                        Shape4D([1, H, W, Cin - 8]) if split else None)
+                        off = 8 if split else 0
+                        exp = (off, Cin) if whole else (c0 + off, c1 + off)
+                        got = (int(ib.start_coord[3]), int(ib.end_coord[3]))
+                        n += 1
+                        if got != exp:
+                            bad.append(("channels|%s|%s" % (bt.name, "split" if split else "plain"), dict(H=H, chan=True, bt=bt.name, c0=c0, c1=c1, split=bool(split)), got, exp))
     for H in Hs:
         for k in range(1, kmax + 1):
             for s in (1, 2, 3):
@@ -130,6 +149,21 @@ def stripe_oracle(streams, rec):
                 continue
             if netrun.geometry_mismatch(s, i):
                 continue  # known defect family, reported by C02/C03 under its root cause
+            # channel range of the stripe (depth slices): one-to-one for depthwise / pooling, the whole (read range of the) IFM depth for dot products
+            if c["block_type"] in ("ConvolutionDepthWise", "Pooling", "ConvolutionMxN") and op.sub != "REDUCE_SUM":
+                ro_, rs_ = c["read_offsets"][0], c["read_shapes"][0]
+                coff = ro_[3] if ro_ is not None else 0
+                wo_ = (c["write_offset"] or [0, 0, 0, 0])[3]
+                if c["block_type"] == "ConvolutionMxN":
+                    cexp = (coff, coff + (rs_[3] if (ro_ is not None and rs_ is not None) else c["ifm_view"][3]))
+                else:
+                    cexp = (c["ofm_box"]["start"][3] - wo_ + coff, c["ofm_box"]["end"][3] - wo_ + coff)
+                cgot = (c["ifm_box"]["start"][3], c["ifm_box"]["end"][3])
+                stats["channel_ranges_checked"] = stats.get("channel_ranges_checked", 0) + 1
+                if cgot != cexp:
+                    viol.append(("ifm-channels|%s" % c["op"], "stripe %d of %s (OFM box %s): IFM box spans channels %s, the operator needs %s" % (i, c["name"], c["ofm_box"], cgot, cexp)))
+                elif op.r("IFM_DEPTH_M1") + 1 != cexp[1] - cexp[0]:
+                    viol.append(("ifm-depth-register|%s" % c["op"], "stripe %d of %s (OFM box %s): IFM_DEPTH register %d, the operator needs channels %s" % (i, c["name"], c["ofm_box"], op.r("IFM_DEPTH_M1") + 1, cexp)))
             if op.kind == "elementwise":
                 continue
             stats["pads_checked"] += 1
@@ -191,7 +225,7 @@ def _key(key, name):
 
 def replay(ctx, case):
     if case.get("unit"):
-        n, bad, nb = _unit_shard(([case["p"]["H"]], 8))
+        n, bad, nb = _unit_shard(([case["p"]["H"]], 8 if not case["p"].get("chan") else 0))
         return [str(b) for b in bad if b[1] == case["p"]]
     return netrun.replay_case(oracle, case)
 
